@@ -1,5 +1,8 @@
-SPECIFICATION Spec
+SPECIFICATION GSpec
 CONSTANTS MaxFeat = 1
  MaxMut = 1
+ Slice = 1
+ HeavySlice = 1
+ Seed = 1
 INVARIANT Emit
 CHECK_DEADLOCK FALSE
